@@ -85,7 +85,7 @@ pub enum PatList {
     /// many distinct first bytes, min len >= 2, <= 16 patterns (packed)
     Packedish(Vec<Vec<u8>>),
     /// a^k b families, nested suffixes (deep failure chains)
-    Adversarial { kind: u8, k: u8, n: u8 },
+    Adversarial { kind: u8, k: u16, n: u8 },
     /// one trie node with many children: prefix + distinct byte + tail
     Fanout { prefix: Vec<u8>, n: u16, start: u8, tails: Vec<u8> },
     /// 17..64 patterns of length >= 2 over many first bytes, with duplicates
@@ -255,7 +255,7 @@ fn shaped_list() -> BoxedStrategy<PatList> {
 }
 
 fn adversarial_list() -> BoxedStrategy<PatList> {
-    (0u8..6, prop_oneof![4 => 1u8..=24, 1 => 25u8..=48], prop_oneof![4 => 1u8..=12, 1 => 13u8..=48])
+    (0u8..6, prop_oneof![8 => 1u16..=24, 2 => 25u16..=48, 1 => 250u16..=330], prop_oneof![4 => 1u8..=12, 1 => 13u8..=48])
         .prop_map(|(kind, k, n)| PatList::Adversarial { kind, k, n })
         .boxed()
 }
@@ -519,6 +519,13 @@ pub fn realize_patterns(list: &PatList, alpha: &[u8]) -> Vec<Vec<u8>> {
             if *reverse {
                 out.reverse();
             }
+            // every other list: a short pattern that only matches after the
+            // whole failure chain of the nested patterns has been walked
+            // (first byte of the unit followed by a different byte)
+            if *n % 2 == 0 {
+                let other = alpha.iter().copied().find(|b| !unit.contains(b)).unwrap_or(unit[0] ^ 1);
+                out.push(vec![unit[0], other]);
+            }
             out
         }
         PatList::LongNested { base, cuts, extra, rotate } => {
@@ -565,8 +572,8 @@ pub fn realize_patterns(list: &PatList, alpha: &[u8]) -> Vec<Vec<u8>> {
                 0 => (0..n).map(|i| { let mut p = vec![a; i + k / 4]; p.push(b); p }).collect(),
                 // all suffixes of a^k b (nested suffixes, deep failure chains)
                 1 => { let mut w = vec![a; k]; w.push(b); (0..w.len().min(n + 1)).map(|i| w[i..].to_vec()).collect() }
-                // a^k and a^k b
-                2 => { let mut w = vec![a; k]; let mut v = vec![w.clone()]; w.push(b); v.push(w); v }
+                // a^k, a^k b and ab (ab only matches after the whole failure chain was walked)
+                2 => { let mut w = vec![a; k]; let mut v = vec![w.clone()]; w.push(b); v.push(w); v.push(vec![a, b]); v }
                 // all suffixes of a Fibonacci word
                 3 => { let w = fib_word(k + 2); (0..w.len().min(n + 1)).map(|i| w[i..].iter().map(|&c| if c == b'a' { a } else { b }).collect()).collect() }
                 // prefixes of a^k b (every prefix is a pattern)
